@@ -256,7 +256,38 @@ func (g *c11Gen) transformObj(o amlObj, topOut *[]amlObj, atTop bool) []amlObj {
 			p := g.pathTo(scopeAbs, atTop)
 			moved := ch
 			moved.Name = amlName{Root: p.Root, Segs: append(append([]string{}, p.Segs...), ch.Name.last())}
-			after = append(after, g.transformObj(moved, topOut, false)...)
+			// a moved container may leave part of its contents behind, declared later through
+			// Scope(<container>) { Scope(<moved>) { ... } } (needs an extra merge/relocate round)
+			var leftover []amlObj
+			mvContainer := moved.K == "device" || moved.K == "thermal" || moved.K == "processor" || moved.K == "power"
+			if mvContainer && len(moved.Body) > 0 && rapid.Bool().Draw(g.t, "leavebehind") {
+				k := rapid.IntRange(1, len(moved.Body)).Draw(g.t, "leftn")
+				rest := append([]amlObj{}, moved.Body[len(moved.Body)-k:]...)
+				ok := true
+				for _, m := range rest {
+					if m.K == "field" || m.K == "indexfield" || m.K == "opregion" {
+						ok = false
+					}
+				}
+				if ok {
+					moved.Body = moved.Body[:len(moved.Body)-k]
+					leftover = rest
+				}
+			}
+			decl := g.transformObj(moved, topOut, false)
+			// an absolute name resolves from anywhere: sometimes declare the object inside
+			// an unrelated predefined scope block (the parser then meets it in a different order)
+			if moved.Name.Root && rapid.IntRange(0, 2).Draw(g.t, "elsewhere") == 0 {
+				pre := rapid.SampledFrom(c11Predefined).Draw(g.t, "elsewherescope")
+				g.stats.scopeDirectives++
+				decl = []amlObj{{K: "scope", Abs: "\\" + pre, W: g.width(), Name: amlName{Root: true, Segs: []string{pre}}, Body: decl}}
+			}
+			after = append(after, decl...)
+			if leftover != nil {
+				g.stats.scopeDirectives += 2
+				inner := amlObj{K: "scope", Abs: moved.Abs, W: g.width(), Name: amlSeg(ch.Name.last()), Body: leftover}
+				after = append(after, amlObj{K: "scope", Abs: scopeAbs, W: g.width(), Name: g.pathTo(scopeAbs, atTop), Body: []amlObj{inner}})
+			}
 		case movable && choice == 2 && !atTop && o.K != "scope":
 			// Scope(<single segment>) { ch } nested in the container's parent block is
 			// expressed by the caller; here: a nested directive inside the container
